@@ -855,6 +855,8 @@ def do_op(W: World, it: dict):
                 return g, lst.pop()
             return g, lst.pop(it["idx"])
         if op == "io_remove":
+            if it.get("from_list") and len(lst):
+                v = lst[it.get("idx", 0) % len(lst)]
             return g, lst.remove(v)
         if op == "io_clear":
             return g, lst.clear()
@@ -868,6 +870,15 @@ def do_op(W: World, it: dict):
                 return g, None
             lst[it.get("idx", 0)] = v
             return g, None
+    if op in ("init_set", "init_register") and it.get("fresh") and G(it["g"]) is not None:
+        # a well-formed initializer: named value carrying a tensor (its construction is instrumented too)
+        fv = ir.Value(name="init%d" % (len(W.all) % 5), const_value=ir.Tensor(np.arange(2, dtype=np.float32)))
+        W.add("value", fv)
+        g = G(it["g"])
+        if op == "init_set":
+            g.initializers[fv.name] = fv
+            return g, None
+        return g, g.register_initializer(fv)
     if op == "init_set":
         g, v = G(it["g"]), V(it["v"])
         if g is None or v is None:
@@ -1171,9 +1182,9 @@ def _gen_op(rng) -> dict:
          "v_merge_shapes", "io_append", "io_insert", "io_pop", "io_remove", "io_clear", "io_extend", "io_setitem",
          "init_set", "init_del", "init_register", "attr_set", "n_resize_in", "n_resize_out", "n_prepend",
          "n_append", "n_set_graph"],
-        [8, 3, 4, 10, 5, 1, 1,
+        [8, 3, 4, 10, 6, 2, 3,
          5, 3, 4, 3, 3, 2,
-         5, 5, 5, 4, 1, 2, 2, 3,
+         5, 5, 5, 4, 3, 2, 2, 3,
          2, 3, 2, 2, 2, 1, 2, 2,
          3, 2, 2, 4, 2, 2, 2,
          2, 2])[0]
@@ -1231,12 +1242,14 @@ def _gen_op(rng) -> dict:
                   kw=r() < 0.3, vs=[i() for _ in range(rng.randrange(0, 3))], iter=r() < 0.4, slice=r() < 0.3)
         if kind == "io_pop" and r() < 0.4:
             it["idx"] = None
+        if kind == "io_remove":
+            it["from_list"] = r() < 0.6
     elif kind == "init_set":
-        it.update(g=i(), v=i(), key=rng.choice([None, None, None, "other", ""]))
+        it.update(g=i(), v=i(), key=rng.choice([None, None, None, "other", ""]), fresh=r() < 0.4)
     elif kind == "init_del":
         it.update(g=i(), i=i(), bogus=r() < 0.3)
     elif kind == "init_register":
-        it.update(g=i(), v=i())
+        it.update(g=i(), v=i(), fresh=r() < 0.6)
     elif kind == "attr_set":
         it.update(n=i(), key=rng.choice(["k", "alpha", "z"]), a=i(), bad=r() < 0.15)
         if r() < 0.1:
@@ -1282,9 +1295,12 @@ def gen_scenario(rng, size: int = 24) -> list:
     pre = [{"op": "value", "name": "a", "typed": True}, {"op": "value", "name": "b", "typed": False},
            {"op": "node", "ins": [0, 1], "nout": 1, "attrs": [], "name": "n0", "optype": "Add", "domain": ""},
            {"op": "node", "ins": [2, 0], "nout": 2, "attrs": [], "name": "n1", "optype": "Mul", "domain": ""}]
-    if rng.random() < 0.7:
+    if rng.random() < 0.85:
         pre.append({"op": "graph", "ins": [0, 1], "outs": [3], "nodes": [0, 1], "name": "g"})
-    pre = pre[:rng.randrange(0, len(pre) + 1)]
+    if rng.random() < 0.3:
+        pre.append({"op": "func", "g": 0})
+    if rng.random() < 0.3:
+        pre = pre[:rng.randrange(0, len(pre) + 1)]
     body = block(size, 0, [])
     if rng.random() < 0.5:
         return pre + body
@@ -1577,7 +1593,7 @@ def run(ck) -> None:
     except Exception as e:  # noqa: BLE001
         force_restore()
         ck.broken("probe:reentry", repr(e))
-    n = 160 if not ck.thorough else 3000
+    n = 300 if not ck.thorough else 6000
     scns = _load_corpus()
     n_corpus = len(scns)
     for i in range(n):
